@@ -337,6 +337,15 @@ func serverPublish(b *fix.Broker, topic string, pl []byte, q byte) error {
 	return b.Srv.Publish(m)
 }
 
+func serverPublishRetained(b *fix.Broker, topic string, pl []byte, q byte) error {
+	m := message.NewPublishMessage()
+	m.SetTopic([]byte(topic))
+	m.SetPayload(append([]byte(nil), pl...))
+	m.SetQoS(q)
+	m.SetRetain(true)
+	return b.Srv.Publish(m)
+}
+
 func genChurn(t *rapid.T) ChurnCase {
 	c := ChurnCase{PubQoS: byte(rapid.IntRange(0, 2).Draw(t, "pubqos")), Size: rapid.SampledFrom([]int{8, 8, 100, 3000}).Draw(t, "size"),
 		Before: rapid.Bool().Draw(t, "before"), ViaAPI: rapid.IntRange(0, 4).Draw(t, "viaapi") == 0}
